@@ -241,6 +241,28 @@ class ProblemParser:
         for expression in init_ast:
             self.parse_state_component(expression)
 
+    def _validate_goal_fluents_arity(self, expression: Union[str, List]) -> None:
+        """Validate that the numeric fluents in a numeric goal condition have the declared number of arguments.
+
+        :param expression: the AST of the numeric goal condition (or of one of its operands).
+        """
+        if isinstance(expression, str):
+            return
+
+        if all(isinstance(item, str) for item in expression):
+            if len(expression) > 0 and expression[0] in self.domain.functions:
+                lifted_function = self.domain.functions[expression[0]]
+                if len(expression) - 1 != len(lifted_function.signature):
+                    raise ValueError(
+                        f"Received fluent - {expression[0]} with wrong number of parameters! "
+                        f"Expected - {len(lifted_function.signature)} and received - {len(expression) - 1}"
+                    )
+
+            return
+
+        for operand in expression[1:]:
+            self._validate_goal_fluents_arity(operand)
+
     def parse_goal_state(
         self, goal_state_ast: List[List[Union[str, List[str]]]]
     ) -> None:
@@ -267,6 +289,7 @@ class ProblemParser:
                 self.problem.goal_state_predicates.append(grounded_predicate)
                 continue
 
+            self._validate_goal_fluents_arity(expression)
             numeric_goal_statement = NumericalExpressionTree(
                 construct_expression_tree(expression, self.domain.functions)
             )
